@@ -740,6 +740,49 @@ func (w *vfc18World) rdbCase(c vfc18RdbCase, i int) {
 	}
 	s.Op(fmt.Sprintf("c18 rdb 1 %s %s", rep, vfutil.Hex(key)), fmt.Sprintf("%s slot=%d tag=%s", vfutil.Hex(tk), unit.Slot, vfutil.HexS(unit.SlotTag)))
 	s.Count("rdb_unit")
+	// the command list itself against the model (ttl and dump arguments canonicalised)
+	{
+		b := func(x bool) string {
+			if x {
+				return "1"
+			}
+			return "0"
+		}
+		rawToks := make([]string, len(p.cmds))
+		for j, rc := range p.cmds {
+			vc := vfc18Cmd{Name: rc[0].(string)}
+			for _, a := range rc[1:] {
+				switch x := a.(type) {
+				case []byte:
+					vc.Args = append(vc.Args, x)
+				case string:
+					vc.Args = append(vc.Args, []byte(x))
+				}
+			}
+			rawToks[j] = vc.tok()
+		}
+		got := make([]string, len(unit.Commands))
+		for j, uc := range unit.Commands {
+			vc := vfc18Cmd{Name: uc.Cmd, Args: append([][]byte(nil), uc.Args...)}
+			switch uc.Cmd {
+			case "restore":
+				if len(vc.Args) >= 3 {
+					vc.Args[1], vc.Args[2] = []byte("T"), []byte("D")
+				}
+			case "pexpire":
+				if len(vc.Args) == 2 {
+					vc.Args[1] = []byte("T")
+				}
+			}
+			got[j] = vc.tok()
+		}
+		useRestore := ro.bisyncRdbUseRestore(e)
+		if useRestore {
+			s.Count("rdb_unit_restore_form")
+		}
+		s.Op(fmt.Sprintf("c18 rdbcmds %s %s %s %s %s %s %s", b(useRestore), b(c.FirstBin), b(c.KeyExists == "replace"), b(c.Expire), rep,
+			vfutil.Hex(key), strings.Join(rawToks, " ")), strings.Join(got, " "))
+	}
 	if len(unit.Commands) > 64 {
 		s.Count("rdb_unit_over_64_commands")
 	}
